@@ -117,6 +117,9 @@ class Exc:
         self.n_calls = 0
         self.n_unresolved = 0
         self.prim_counts: dict[str, int] = {}
+        # extra per-expression observers: hook(f, node, st, flow, summary_key) — run inside the same
+        # context-sensitive kind flow as the exception primitives (used by C16-RAWEQ)
+        self.expr_hooks: list = []
         # filter entries: name -> (impl FuncInfo, [decorator FuncInfo wrappers outer->inner])
         self.filter_entries = []
         for fi in self.reg.filter_functions():
@@ -367,6 +370,8 @@ class Exc:
                     for site in s.escapes:
                         if self.escapes_handlers(f, node, site.exc):
                             out.escapes.setdefault(site, set()).add(gkey)
+            for hook in self.expr_hooks:
+                hook(f, node, st, flow, key)
             for prim, arg, excs in primitives(self, f, node, st, flow):
                 self.prim_counts[prim] = self.prim_counts.get(prim, 0) + 1
                 for e in excs:
